@@ -38,7 +38,8 @@ class OutputSuppressionContext:
 
     Operates at two levels:
 
-    - Python level: redirects ``sys.stdout`` / ``sys.stderr`` to ``/dev/null``.
+    - Python level: redirects ``sys.stdout`` / ``sys.stderr`` to ``/dev/null`` and
+      ``sys.stdin`` to an empty input; the previous ``sys.stdin`` is reinstated on exit.
     - OS level: saves file descriptors 0/1/2 via ``os.dup`` so that if the SUT
       closes them (e.g. ``with open(1, 'w')`` where the int happens to be a
       stdio fd), they are restored on exit.
@@ -48,12 +49,14 @@ class OutputSuppressionContext:
     # This is closed when Pynguin terminates, since we don't need this output
     # anyway this is acceptable.
     _null_file = open(os.devnull, mode="w")  # noqa: PLW1514, PTH123, SIM115
+    _null_input = open(os.devnull)  # noqa: PLW1514, PTH123, SIM115
 
     def __init__(self) -> None:
         """Create a new context manager that suppress stdout and stderr."""
         self._restored = False
         self._restored_lock = threading.Lock()
         self._saved_fds: dict[int, int] = {}
+        self._saved_stdin = sys.stdin
 
     def restore(self) -> None:
         """Restore stdout and stderr at both Python and OS level."""
@@ -71,19 +74,25 @@ class OutputSuppressionContext:
             self._saved_fds.clear()
             sys.stdout = sys.__stdout__
             sys.stderr = sys.__stderr__
+            sys.stdin = self._saved_stdin
 
     def __enter__(self) -> None:
         # Save OS-level fds before the SUT has a chance to close them.
         for fd in (0, 1, 2):
             with contextlib.suppress(OSError):
                 self._saved_fds[fd] = os.dup(fd)
+        self._saved_stdin = sys.stdin
         cls = OutputSuppressionContext
         if cls._null_file.closed:
             # A previously executed SUT closed the shared file (``sys.stdout.close()``);
             # without a fresh one every later ``print`` of the SUT raises ``ValueError``.
             cls._null_file = open(os.devnull, mode="w")  # noqa: PLW1514, PTH123, SIM115
+        if cls._null_input.closed:
+            cls._null_input = open(os.devnull)  # noqa: PLW1514, PTH123, SIM115
         sys.stdout = cls._null_file
         sys.stderr = cls._null_file
+        # The SUT must not read from, block on, or close Pynguin's standard input.
+        sys.stdin = cls._null_input
 
     def __exit__(self, exc_type, exc_val, exc_tb) -> None:
         self.restore()
